@@ -206,6 +206,16 @@ def body(c):
     # step conformance: every change of the real directory between two consecutive file-system calls is a transition of CacheFS
     # (from that directory state), or the composition of two of them (a call in flight when the snapshot was taken)
     nst = 0; nbad = 0
+    # (binding demonstration: a result appearing under its final name without a temporary file - a write in place - is a change no
+    # transition of the model makes, nor two of them)
+    import json as _json
+    fake = (_json.dumps([["F", "F/a", "F/code"], [["F/code", ["code", 1]]]]), _json.dumps([["F", "F/a", "F/a/out", "F/code"], [["F/a/out", ["val", 1, "a"]], ["F/code", ["code", 1]]]]))
+    for nm, rel in rels.items():
+        succ = {}
+        for a, b in rel: succ.setdefault(a, set()).add(b)
+        if fake in rel or any(fake[1] in succ.get(m, ()) for m in succ.get(fake[0], ())):
+            raise tlc.TLCError("step conformance lost its sensitivity: CacheFS[%s] lets a result appear under its final name in one or two steps" % nm)
+    c.extra["step_relation_sizes"] = {nm: len(rel) for nm, rel in rels.items()}
     for r in results:
         if not r.get("steps") or r["scenario"] not in rels or r["problems"]: continue
         rel = rels[r["scenario"]]
